@@ -291,6 +291,16 @@ def run_cases(ctx, cases, drv, with_predicate=True, fields=realenc.FIELDS):
             if 'sample' in case:
                 ctx.fail('every bundled sample design can be built', dict(case), type(e).__name__, 'an Optic')
             continue
+        if 'desc' in case and not case.get('post') and not case['desc'].get('post'):
+            # "the prescribed surfaces" are the ones handed to add_surface: the model below is fed from the built
+            # lens, so the built lens is first compared with the descriptor (decentres, tilts, vertex positions,
+            # radius, conic, coefficients)
+            cd = lensgen.construction_diffs(case['desc'], optic)
+            if cd:
+                ctx.fail('the lens built by add_surface has the prescription passed to it (%s)' % cd[0][0],
+                         dict(case), cd[0][1], cd[0][2])
+                continue
+            ctx.count('construction compared with the descriptor')
         wl = optic.wavelengths.get_wavelengths()
         w = wl[case.get('wi', 0) % len(wl)] if case.get('wi', 0) >= 0 else wl[-1]
         px, py = disk_points(random.Random(case['seed']), case['nray'])
